@@ -209,6 +209,25 @@ def child_state(v: Any) -> Dict[str, Any]:
 # the file API: dump(obj, fp) / load(fp) over binary files, text files of several encodings, StringIO, BytesIO
 # ---------------------------------------------------------------------------
 FILE_KINDS = ["binary-file", "BytesIO", "StringIO", "text:utf-8", "text:ascii", "text:latin-1", "text:cp1252", "text:utf-16"]
+# write-only sinks that are not io classes: what write() returns is up to them (asyncio.StreamWriter.write and many wrappers
+# return None, raw files return the count, a careless wrapper something else)
+SINK_KINDS = [f"{mode}-sink:write-returns-{ret}" for mode in ("binary", "text") for ret in ("None", "count", "wrong-count", "True")]
+
+
+class _Sink:
+    def __init__(self, mode: str, ret: str):
+        self.mode, self.ret, self.chunks = mode, ret, []
+
+    def write(self, data):
+        if self.mode == "binary" and not isinstance(data, (bytes, bytearray, memoryview)):
+            raise TypeError("a bytes-like object is required, not 'str'")
+        if self.mode == "text" and not isinstance(data, str):
+            raise TypeError("write() argument must be str, not bytes")
+        self.chunks.append(bytes(data) if self.mode == "binary" else data)
+        return {"None": None, "count": len(data), "wrong-count": max(0, len(data) - 1), "True": True}[self.ret]
+
+    def text(self) -> str:
+        return b"".join(self.chunks).decode("utf-8") if self.mode == "binary" else "".join(self.chunks)
 
 
 def _open_for_write(kind: str):
@@ -216,6 +235,9 @@ def _open_for_write(kind: str):
     if kind == "StringIO":
         fp = io.StringIO()
         return fp, fp.getvalue
+    if "-sink:" in kind:
+        sink = _Sink(kind.split("-sink:")[0], kind.rsplit("-returns-", 1)[1])
+        return sink, sink.text
     raw = io.BytesIO()
     if kind == "BytesIO":
         return raw, lambda: raw.getvalue().decode("utf-8")
@@ -251,7 +273,7 @@ def child_file(v: Any) -> Dict[str, Any]:
     from chuk_mcp.protocol import fast_json
 
     out: Dict[str, Any] = {"dump": {}, "load": {}}
-    for kind in FILE_KINDS:
+    for kind in FILE_KINDS + SINK_KINDS:
         try:
             fp, text = _open_for_write(kind)
             fast_json.dump(v, fp)
@@ -303,7 +325,7 @@ def judge_files(values: List[Any], pools: Dict[str, workers.Pool], tally: Tally,
         for n in names:
             if "harness_exc" in ans[n][i]:
                 raise core.HarnessError(f"worker {n}: {ans[n][i]['harness_exc']}")
-        for kind in FILE_KINDS:
+        for kind in FILE_KINDS + SINK_KINDS:
             res_ = {n: ans[n][i]["dump"][kind] for n in names}
             tally.add("file_dumps", len(names))
             ok = {n: "text" in r for n, r in res_.items()}
@@ -1091,7 +1113,7 @@ def run(tier: str, only=None) -> core.Result:
         tally.c.get("decode_mutate_decode_sequences", 0) + tally.c.get("file_roundtrips_judged", 0) + tally.c.get("file_loads", 0) + \
         sum(v.get("calls_compared_with_fresh_process", 0) for v in seq_info.values() if isinstance(v, dict))
     cov["encode_sequences"] = seq_info
-    cov["file_api"] = {"values": len(file_vals), "file_kinds": FILE_KINDS, "dumps": tally.c.get("file_dumps", 0),
+    cov["file_api"] = {"values": len(file_vals), "file_kinds": FILE_KINDS + SINK_KINDS, "dumps": tally.c.get("file_dumps", 0),
                        "loads": tally.c.get("file_loads", 0), "roundtrips_judged": tally.c.get("file_roundtrips_judged", 0)}
     cov["message_path"] = {"messages": len(msgs), "configurations": msg_hello,
                            "encodings": tally.c.get("message_encodings", 0),
@@ -1124,7 +1146,8 @@ def run(tier: str, only=None) -> core.Result:
         "x {loads(str), loads(bytes), load(text fp), load(bytes fp)}; evaluations = round trips judged; distinct = distinct "
         "values by type-strict canonical form; non-trivial = contains a float, an integer beyond +-2^53 or a string/key "
         "that is not printable ASCII or needs escaping; file API: every boundary string as scalar/item/member/key x {orjson, stdlib} "
-        "x dump() and load() over a binary file, BytesIO, StringIO and text files encoded utf-8/ascii/latin-1/cp1252/utf-16: dump "
+        "x dump() and load() over a binary file, BytesIO, StringIO, text files encoded utf-8/ascii/latin-1/cp1252/utf-16 and write-only "
+        "binary/text sinks whose write() returns None / the count / a wrong count / True: dump "
         "succeeds under both codecs or neither, what was written (decoded with the file's codec) loads back to the value under both, "
         "load() of ASCII and of raw JSON text gives the value; encode statefulness: every ordered pair (on every pair of 6 values, "
         "incl. values that take the stdlib path under orjson: 2^64, nesting beyond orjson's limit, a lone surrogate, an object "
